@@ -157,6 +157,9 @@ def make_registry_env(h):
                 if o[0] == "exitb":
                     reg.exit(obj(o[1]))
                     return "none"
+                if o[0] == "import":
+                    sys.modules[c11.modname(o[1])] = types.ModuleType(c11.modname(o[1]))       # what `import framework` does to sys.modules
+                    return "none"
                 a = o[1]
                 arg = None if a == "none" else (c11.bname(a[1]) if a[0] == "name" else obj(a[1]))
                 tensors = [1 if t == "scalar" else (np.zeros(2) if t[1] == c11.NUMPY_MOD else cls(t[1])()) for t in o[2]]
@@ -198,6 +201,18 @@ def gen_case(rng):
             p = [["enter", b], ["enter", b2], ["exitb", b2], ["exitb", b]]
         progs.append(p[:3] if len(p) > 3 and nthreads == 3 else p)
     return {"mods": h["mods"], "decls": decls, "backends": h["backends"], "programs": progs}
+
+
+def import_race_cases():
+    """one thread looks a backend up by name (the name is not registered yet: the registry rescans sys.modules) while another
+    thread imports modules; the lookup is stopped after every k-th source line and the other thread runs to its end"""
+    b = {"id": 0, "name": 20, "prio": 0, "fw": 2, "valid": True, "decl_prio": 0}
+    nb = {"id": 1, "name": 0, "prio": -1, "fw": c11.NUMPY_MOD, "valid": True, "decl_prio": -1}
+    out = []
+    for imports in ([["import", 2]], [["import", 50], ["import", 2]], [["import", 51]]):
+        out.append({"mods": [c11.NUMPY_MOD], "decls": [["register", nb], ["register_on_import", 2, b]], "backends": [b, nb],
+                    "programs": [[["lookup", ["name", 20], []]], imports]})
+    return out
 
 
 def serial_orders(progs, limit=3000):
@@ -311,9 +326,29 @@ def run(ctx):
             ctx.distinct.add(json.dumps([case["programs"], trace]))
         if len(ctx.samples) < 3:
             ctx.sample({"programs": case["programs"], "serial_orders": len(serial)})
+    # a lookup that rescans sys.modules, pre-empted at every k-th line by a thread that imports modules
+    race_runs = 0
+    for case in import_race_cases():
+        serial = model_serial(ctx.model, case)
+        allowed = {json.dumps([per, final]) for _, per, final in serial}
+        make = make_registry_env(case)
+        for k in (list(range(1, 60)) if quick else list(range(1, 200))) + [400, 800, 1200]:
+            sched_k = [0] * k + [1] * 40
+            try:
+                results, final, steps, trace = run_schedule(case["programs"], sched_k, make)
+            except Stuck as e:
+                ctx.report({"kind": "schedule_stuck"}, {"case": case, "schedule": sched_k, "detail": str(e)})
+                continue
+            race_runs += 1
+            total += 1
+            if json.dumps([norm(results), final]) not in allowed:
+                ctx.report({"kind": "not_serialisable", "failure": sorted({r for per in results for r in per if isinstance(r, str) and r.startswith("FAIL")})[:1]},
+                           {"case": case, "schedule": trace[:2000], "observed": [results, final], "some_serial_outcomes": [json.loads(a) for a in list(allowed)[:3]]})
+                break
     for m in range(2, 60):
         sys.modules.pop(c11.modname(m), None)
     callstats = run_call_mode(ctx)
+    callstats["lookups_preempted_by_an_importing_thread"] = race_runs
     callstats.update(run_preemption_mode(ctx))
     ctx.coverage.update({
         "evaluations": total + callstats["call_mode_cases"], "traces_validated_against_impl": total,
